@@ -638,16 +638,20 @@ def evaluate__node_comparison(self: XPathToken, context: ta.ContextType = None) 
         if left[0] is right[0] or context is None:
             return False
 
+        # Document order is the order of the sort key used for node sequences: positions
+        # inside a tree, an implementation-dependent stable order between distinct trees.
+        before = node_position(left[0]) < node_position(right[0])
+        if node_position(left[0])[0] == node_position(right[0])[0]:
+            return before if symbol == '<<' else not before  # two nodes of one tree
+
         documents = [context.root]
         documents.extend(v for v in context.variables.values() if isinstance(v, DocumentNode))
 
         for root in documents:
             if root is not None:
                 for item in root.iter_document():  # pragma: no cover
-                    if left[0] is item:
-                        return True if symbol == '<<' else False
-                    elif right[0] is item:
-                        return False if symbol == '<<' else True
+                    if left[0] is item or right[0] is item:
+                        return before if symbol == '<<' else not before
         else:
             raise self.error('FOCA0002', "operands are not nodes of the XML tree!")
 
